@@ -991,6 +991,7 @@ class ExcelCompiler:
 
     def _process_gen_graph(self):
 
+        failure = None
         while self.graph_todos:
             # connect the dependant cells in the graph
             dependant = self.graph_todos.pop()
@@ -998,14 +999,20 @@ class ExcelCompiler:
             self.log.debug(f"Handling {dependant.address}")
 
             for precedent_address in dependant.needed_addresses:
-                if precedent_address.address not in self.cell_map:
-                    self._gen_graph(precedent_address, recursed=True)
+                try:
+                    if precedent_address.address not in self.cell_map:
+                        self._gen_graph(precedent_address, recursed=True)
 
-                self.dep_graph.add_edge(
-                    self.cell_map[precedent_address.address], dependant)
+                    self.dep_graph.add_edge(
+                        self.cell_map[precedent_address.address], dependant)
+                except Exception as exc:
+                    # still connect the rest, those cells are already in the cell map
+                    failure = failure or exc
 
         # calc the values for ranges
         try:
+            if failure is not None:
+                raise failure
             for range_todo in reversed(self.range_todos):
                 self._evaluate_range(range_todo)
         finally:
